@@ -43,6 +43,7 @@ class OptInterp:
         self.field_labels = {}    # "field:<adt>.<name>" -> label for every read of that field
         self._ctl = frozenset()   # labels of the values the current path has branched on
         self.prog = None          # Program: lets a closure value carry the labels of what its body reads
+        self.enum_preds = {}      # callee -> set of variant indices for which the predicate (on its first argument) is true
         self.fork_unknown = False  # explore both cases of an Option of unknown presence at unwrap_or / map_or / or
 
     def val(self, env, op):
@@ -117,6 +118,9 @@ class OptInterp:
 
     def assign(self, env, place, v, whole_from=None):
         k = pkey(place)
+        if not k[1] and k[0] in self.forced and k[0] > self.body.argc:
+            env[k] = ("D", self.forced[k[0]])      # a local whose variant is fixed for this exploration keeps it
+            return
         # drop stale sub-keys
         for kk in [x for x in env if isinstance(x[0], int) and x[0] == k[0] and x[1][:len(k[1])] == k[1]]:
             del env[kk]
@@ -135,6 +139,8 @@ class OptInterp:
             return self.sources[ins.id]
         if c in self.sources:
             return self.sources[c]
+        if c in self.enum_preds and a and isinstance(a[0], tuple) and a[0][0] == "D":
+            return "T" if a[0][1] in self.enum_preds[c] else "F"
         RES = "core::result::Result"
         if c.startswith(RES + "::"):
             nm = c.split("::")[-1]
@@ -448,10 +454,11 @@ def presence_sources(body, src_a, src_b, prog=None):
     return out
 
 
-def enum_cases(body, forced):
+def enum_cases(body, forced, enum_preds=None):
     """explore the body with the discriminants of the given locals fixed; returns the per-path records"""
     it = OptInterp(body, {})
     it.forced = dict(forced)
+    it.enum_preds = enum_preds or {}
     it.run()
     return it.records
 
